@@ -731,6 +731,11 @@ class C16(CaseSpec):
                                                 "for all K,N,E: Send+Sync) does not compile against /repo's working tree"))
             violations.append((rp, "no-failing-input-found"))
             return dict(evaluations=1, distinct_nontrivial=2, rule="probe failed to compile", samples=[out[-300:]])
+        for (fl, t, err) in tc.run_positive():
+            rp = write_replay(prop, {"kind": "failing-input", "obligation": "gdsl::%s::%s<K, N, E>: Send + Sync for all K, N, E that are Send + Sync (borrowed payloads included)" % (fl, t),
+                                     "rustc": err, "oracle": "the type cannot be sent to / shared with another thread although its payload types are Send + Sync",
+                                     "program": "fn f<K: Clone + Hash + Display + Eq + Send + Sync, N: Clone + Send + Sync, E: Clone + Send + Sync>() { fn ok<T: Send + Sync>() {} ok::<gdsl::%s::%s<K, N, E>>(); }" % (fl, t)})
+            violations.append((rp, ""))
         mrows, mout = tc.model_table()
         dis = []
         if mrows is None:
